@@ -325,11 +325,19 @@ where
         self.retain_mut(|i, p| predicate(&*i, &*p));
     }
 
-    pub fn retain_mut<F>(&mut self, predicate: F)
+    pub fn retain_mut<F>(&mut self, mut predicate: F)
     where
         F: FnMut(&mut I, &mut P) -> bool,
     {
-        self.map.retain2(predicate);
+        // Run the user's predicate before touching the structure of the map:
+        // if it panics, the map and the index tables still agree with each other.
+        let mut keep = Vec::with_capacity(self.map.len());
+        for i in 0..self.map.len() {
+            let (item, priority) = self.map.get_index_mut2(i).unwrap();
+            keep.push(predicate(item, priority));
+        }
+        let mut keep = keep.into_iter();
+        self.map.retain2(|_, _| keep.next().unwrap_or(true));
         if self.map.len() != self.size {
             self.size = self.map.len();
             self.heap = (0..self.size).map(Index).collect();
